@@ -80,7 +80,8 @@ def make_pool():
         e['PairL']([e['Bag'](['a'])]), e['PairL']([e['Bag']([1])]), e['Scores']({1: 'a'}), e['Scores']({'a': 1}),
         e['Scores']({1: 1}), e['Table']({1: 'a'}), e['IntsT']([1]), e['IntsT'](['a']), e['TaggedInts'](['a']), e['TaggedInts']([2]),
         e['TableT']({'a': 1}), e['TableT']({'a': 'b'}), e['Person'](), e['Badge'](e['Person']()), e['BadgeList']([e['Person']()]),
-        e['BadgeList']([1]),
+        e['BadgeList']([1]), e['ClassList']([A]), e['ClassList']([C, int]), e['ClassList']([int]), e['ClassList']([A()]),
+        e['ClassRegistry']({'a': B}), e['ClassRegistry']({'a': str}), e['ClassRegistry']({'a': 1}),
         int, str, bool, float, A, B, C, D, Col, type, object, list, dict, e['IntSub'],
         len, fn, gen(), iter([1]), iter(()), object(), lambda: 0,
     ]
@@ -1181,6 +1182,13 @@ def named_nodes():
                        gen=lambda rng, cx, d: e['IntsT']([rng.randint(0, 9) for _ in range(size_pick(rng, d))])),
         lambda: NamedH('TaggedInts', 'generic:multi-base', isinst='TaggedInts', items=('seq', I),
                        gen=lambda rng, cx, d: e['TaggedInts']([rng.randint(0, 9) for _ in range(size_pick(rng, d))])),
+        # type[T] inside the pseudo-superclass: the binding of T must reach type[...]
+        lambda: NamedH('ClassList[A]', 'generic:type-of-typevar', isinst='ClassList', items=('seq', TypeH(['A'])),
+                       gen=lambda rng, cx, d: e['ClassList']([rng.choice([e['A'], e['B'], e['C']]) for _ in range(size_pick(rng, d))])),
+        lambda: NamedH('ClassList[int]', 'generic:type-of-typevar', isinst='ClassList', items=('seq', TypeH(['int'])),
+                       gen=lambda rng, cx, d: e['ClassList']([rng.choice([int, bool, e['IntSub']]) for _ in range(size_pick(rng, d))])),
+        lambda: NamedH('ClassRegistry[A]', 'generic:type-of-typevar', isinst='ClassRegistry', items=('map', S, TypeH(['A'])),
+                       gen=lambda rng, cx, d: e['ClassRegistry']({'k%d' % i: rng.choice([e['A'], e['B'], e['C']]) for i in range(size_pick(rng, d))})),
         lambda: NamedH('TableT', 'generic:multi-base', isinst='TableT', items=('map', S, I),
                        gen=lambda rng, cx, d: e['TableT']({'k%d' % i: i for i in range(size_pick(rng, d))})),
     ]
